@@ -14,6 +14,14 @@ zero entries, spelled [] / null / absent) at any request, repeated, on the remai
 destination refuses a request without leaves as Trillian does.  Invariant PosCovered (a pass reported successful
 leaves no hole below the position it hands to the next pass) is checked exhaustively on the model and, on traces,
 as Complete (Return nil) / NoGap (GetRoot of the next pass) behind the defect step AbandonRanges.
+The configured range is a dimension of the scenario: start_index (-1 = destination tree size, 0, inside, equal to, beyond
+the STH) x end_index (none, inside, equal to, beyond the STH) x one-shot / continuous, on a source whose get-entries
+serves more than the STH it announced covers (cfg.ahead; growth during the pass).  Clause RangeWithinSTH (from "nothing
+beyond the source tree size it verified"): the range of a pass ends at Hi <= STH whatever end_index says; named clauses
+ContIgnoresRange and RangeIsTheJob.  MigrillianRange.cfg checks the dimension exhaustively; MigrillianNoClamp.cfg
+(Hi <- HiUnclamped) must violate Bounded, i.e. the dimension tells a migrator that believes end_index from one that does
+not; replay (MigrillianSimRange.cfg) and random scenarios carry it to the real Controller / scanner.Fetcher; trace
+validation names the defect through the silent step OverrunRange + invariant Bounded.
 """
 import json
 import os
@@ -36,6 +44,10 @@ ASSUME = [
     "named clauses EmptyPageHandedOn (the migrator sends the empty batch on and asks for the range again) and EmptyRequestRefused "
     "(the destination answers a request without leaves InvalidArgument as Trillian's validateLogLeaves does, so the pass fails loudly); "
     "trace validation also accepts a migrator that drops the empty batch and asks again (SkipEmpty)",
+    "configured range: the property bounds every configuration by the STH verified in the pass (RangeWithinSTH); where it is silent: "
+    "continuous mode ignores start_index / end_index (ContIgnoresRange, as the configuration's comment says), a one-shot run copies the "
+    "configured range only and 'no gaps' is demanded inside it (RangeIsTheJob); start_index -1 = the destination's tree size; the source "
+    "may serve entries beyond the STH it announced (lagging front end, growth during the pass): up to 2 such entries",
     "sizes: source <= 4 (+2 growth), batch 1..3, fetchers/submitters 1..3, <= 2 faults exhaustively (3 in simulation and random scenarios)",
 ]
 
@@ -74,16 +86,22 @@ def run(ctx, replay=None):
         return
     # 1. exhaustive safety + liveness of the specification
     #    (VERIF_C20_SKIP_MC=1: development aid for mutation runs, the specification does not depend on the code)
-    for cfg in [] if os.environ.get("VERIF_C20_SKIP_MC") == "1" else ctx.pick(["MigrillianWide.cfg", "MigrillianGrow.cfg", "MigrillianDeep.cfg", "MigrillianPages.cfg"],
-                                                                                   ["Migrillian.cfg", "MigrillianDeep6.cfg", "MigrillianWide2.cfg", "MigrillianDeep2.cfg", "MigrillianPagesGrow.cfg"]):
+    for cfg in [] if os.environ.get("VERIF_C20_SKIP_MC") == "1" else ctx.pick(["MigrillianWide.cfg", "MigrillianGrow.cfg", "MigrillianDeep.cfg", "MigrillianPages.cfg", "MigrillianRange.cfg"],
+                                                                                   ["Migrillian.cfg", "MigrillianDeep6.cfg", "MigrillianWide2.cfg", "MigrillianDeep2.cfg", "MigrillianPagesGrow.cfg",
+                                                                                    "MigrillianRangeFull.cfg"]):
         ctx.tlc("migrate", "MCMigrillian", cfg, workers=WORKERS, timeout=5400)
     if os.environ.get("VERIF_C20_SKIP_MC") != "1":
         ctx.tlc("migrate", "MCMigrillian", ctx.pick("MigrillianLiveSmall.cfg", "MigrillianLive.cfg"), workers=WORKERS, timeout=5400)
+        # the range / ahead dimension is not idle: a migrator that believes an explicit end_index must break Bounded on the model
+        r = ctx.tlc("migrate", "MCMigrillian", "MigrillianNoClamp.cfg", workers=2, timeout=1800, expect_violation=True, count=False)
+        if r.violated != "Bounded":
+            raise Infra("MigrillianNoClamp.cfg (Hi <- HiUnclamped) does not violate Bounded (violated=%s rc=%d): the configured-range "
+                        "dimension of the specification does not distinguish a migrator that runs beyond the verified STH" % (r.violated, r.rc))
         ctx.exhaustive = True
     # 2. spec -> code: simulated behaviours as fault schedules
     behs = []
     for cfg, num in (("MigrillianSim.cfg", ctx.pick(400, 4000)), ("MigrillianSimBenign.cfg", ctx.pick(400, 4000)),
-                     ("MigrillianSimPages.cfg", ctx.pick(200, 2000))):
+                     ("MigrillianSimPages.cfg", ctx.pick(200, 2000)), ("MigrillianSimRange.cfg", ctx.pick(300, 3000))):
         r = ctx.tlc("migrate", "SimMigrillian", cfg, simulate=num, depth=300, count=False, timeout=3000)
         b = r.records.get("BEH", [])
         if not b:
@@ -100,11 +118,13 @@ def run(ctx, replay=None):
     _, outdir, reps = ctx.go_test("vt/c20", run="TestReplay$", env={"VERIF_BEHAVIOURS": path}, toolchain="go1.26", race=True,
                                   timeout=3000, name="c20replay")
     need_empty_pages(reps, "replay")
+    need_range(reps, "replay")
     validate(ctx, os.path.join(outdir, "replay-traces.ndjson"), None, "replay")
     # 3. code -> spec: random scenarios, traces validated with all invariants on
     _, outdir, reps = ctx.go_test("vt/c20", run="TestTrace$", env={"VERIF_TRACES": ctx.pick(150, 1500)}, toolchain="go1.26", race=True,
                                   timeout=3000, name="c20trace")
     need_empty_pages(reps, "trace")
+    need_range(reps, "trace")
     tr = os.path.join(outdir, "traces.ndjson")
     if not os.path.exists(tr) or os.path.getsize(tr) == 0:
         raise Infra("no trace recorded")
@@ -135,6 +155,15 @@ def need_empty_pages(reps, label):
     n = sum((rep.get("extra") or {}).get("empty_pages_served", 0) for rep in reps)
     if reps and n == 0:
         raise Infra("no empty get-entries page was served in the %s runs: the emptyPage dimension was not exercised" % label)
+
+
+def need_range(reps, label):
+    """vacuity guard: one-shot passes with an explicit end_index beyond the STH, on a source that serves entries beyond
+    that STH, must have reached the real fetcher"""
+    n = sum((rep.get("extra") or {}).get("passes_end_index_beyond_sth_source_ahead", 0) for rep in reps)
+    if reps and n == 0:
+        raise Infra("no pass with end_index beyond the STH on a source serving beyond its STH in the %s runs: the configured-range "
+                    "dimension was not exercised" % label)
 
 
 def run_trace(ctx, path, label):
